@@ -848,7 +848,8 @@ class ktensor:
 
         # Try to fix the signs for each component
         best_sign = np.zeros((N, RA))
-        for r in range(RB):
+        # a reference with more components than self: only the first RA have a counterpart
+        for r in range(min(RA, RB)):
             # Compute the inner products. They should mostly be O(1) if there is a
             # good match because the factors have prevsiouly been normalized. If
             # the signs are correct, then the score should be +1. Otherwise we need
